@@ -1,9 +1,11 @@
 SPECIFICATION Spec
 CONSTANTS
+  FeeFirst = TRUE
   Users = {"u1", "u2"}
   Admins = {"a1", "a2", "a3"}
   MaxBal = 3
   Fees = {2, 4}
   MaxSteps = 2
 INVARIANTS Inv_C14_NoCreation Inv_C14_FeeRounding Inv_C14_NonNegative
+PROPERTIES C07_FailedLeavesNothing
 CHECK_DEADLOCK FALSE
